@@ -56,6 +56,7 @@ class Recorder:
         self.interrupt_at = interrupt_at
         self.settle = settle
         self.watchdog = watchdog
+        self.stall_seconds = 3 * watchdog     # nothing recorded for that long with tasks in flight and no gate holding them: stuck workers
         self.inflight = 0          # dispatched - finished
         self.finished = 0
         self.received = 0
@@ -314,7 +315,7 @@ def patched(rec):
                         cur = len(rec.trace) + rec.arrivals
                         if cur != getattr(self, "_last_cur", None):
                             self._last_cur, self._last_t = cur, time.time()
-                        elif not rec.waiters and time.time() - self._last_t > 3 * rec.watchdog:
+                        elif not rec.waiters and time.time() - self._last_t > rec.stall_seconds:
                             rec.rec("hang", "stalled")
                             raise HangDetected()
             with rec.cv:
